@@ -565,6 +565,13 @@ pub fn map_group_by(
         }
     };
 
+    // The callback may shrink the source: the copied elements stay rooted here
+    for item in &elements {
+        if let JsValue::Object(item_obj) = item {
+            guard.guard(item_obj.clone());
+        }
+    }
+
     // Create a new Map for the result
     let size_key = PropertyKey::String(interp.intern("size"));
     let map_obj = interp.create_object(&guard);
